@@ -9,7 +9,7 @@ from spec import ops
 from . import source, types as ty
 from .engine import (NS, Exec, Obligation, _Builtin, _FakeSrc, _scalar, as_int, is_z3, lift, sort_of)
 from .values import (ADict, AList, ASet, BoundMethod, BreakSignal, ClassRef, ContinueSignal, Env, FStr,
-                     ModRef, OMap, Opaque, OutOfSubset, PathEnd, PyRaise, ReturnSignal, SClosure, SFun,
+                     ModRef, OMap, Opaque, OutOfSubset, PathEnd, PyRaise, ReturnSignal, SClosure, SFun, UMap,
                      SObj, fresh_name)
 
 MAX_INLINE_DEPTH = 12
@@ -172,8 +172,21 @@ class Executor(Exec):
             env.set(a.asname or a.name, ModRef(a.name))
 
     def s_ImportFrom(self, s, env, ctx):
+        """Function-local import: names from repository modules resolve to the repository's definitions
+        (classes, functions, constants) exactly like module-level imports; third-party names are opaque."""
+        mod = s.module or ""
+        if s.level:  # relative import: resolve against the package of the file under execution
+            base = self.fsrc.module.dotted.split(".")[: -s.level]
+            mod = ".".join(base + ([mod] if mod else []))
+        rel = mod.replace(".", "/") + ".py"
         for a in s.names:
-            env.set(a.asname or a.name, Opaque(f"import {s.module}.{a.name}"))
+            target = a.asname or a.name
+            if (source.REPO / rel).exists():
+                env.set(target, self.lookup_global(a.name, source.load_module(rel)))
+            elif a.name in source.class_table() and mod.split(".")[0] in ("dsl_compiler",):
+                env.set(target, ClassRef(a.name))
+            else:
+                env.set(target, Opaque(f"import {mod}.{a.name}"))
 
     def s_Delete(self, s, env, ctx):
         for t in s.targets:
@@ -433,6 +446,15 @@ class Executor(Exec):
             return self.call_bound(fn, args, kwargs)
         if fn is None:
             raise PyRaise("TypeError", "None is not callable")
+        if isinstance(fn, Opaque) and fn.label.startswith("import "):
+            # constructor / function of a third-party package: only by an (assumed) contract given as effect
+            short = fn.label.rsplit(".", 1)[-1]
+            u = self._uses(f"opaque.{short}")
+            if u == "skip":
+                return None
+            if u is not None and u != "inline" and getattr(u, "effect", None) is not None:
+                return u.effect(self, NS({"args": list(args), "kwargs": dict(kwargs), "recv": fn}))
+            raise OutOfSubset(f"call of third-party {fn.label} without contract")
         raise OutOfSubset(f"call of {type(fn).__name__}")
 
     def _uses(self, *keys):
@@ -978,6 +1000,15 @@ class Executor(Exec):
             if name == "clear":
                 recv.clear()
                 return None
+        if isinstance(recv, UMap):
+            if name == "get":
+                k = lift(args[0])
+                d = args[1] if len(args) > 1 else None
+                if not self.branch(z3.Select(recv.present, k), label="get-present"):
+                    return d
+                if self.branch(z3.Select(recv.isint, k), label="value-is-int"):
+                    return z3.Select(recv.ival, k)
+                return self.mk(recv.obj_type, fresh_name(recv.name + "[]"), register=True)
         if isinstance(recv, OMap):
             if name == "get":
                 r = self.mk(ty.TOpt(recv.val_type), fresh_name(recv.name + "[]"), register=True)
